@@ -349,9 +349,9 @@ int main(int argc, char **argv) {
         std::vector<Shape> shapes = {{2, 1, 1, true}, {2, 2, 1, true}, {2, 1, 2, true}, {2, 2, 2, true}, {3, 1, 1, true}, {4, 1, 1, true}, {3, 2, 1, false}, {3, 1, 2, false}, {2, 3, 1, true}, {2, 1, 3, true}};
         for (auto s : shapes) {
             int m = s.b * s.br, n = s.b * s.bc; uint64_t np = 1ull << (m * n);
-            // quick tier: the 2^16 / 2^18 spaces are walked with a fixed stride (every pattern in thorough)
+            // quick tier: the two 2^18 spaces (b=3, 2x1 and 1x2 blocks) are walked with stride 8 (every pattern in thorough)
             uint64_t stride = 1;
-            if (!T && !vf::replaying()) { if (np > 4096) stride = (np >> 12) + 1; if (!s.quick) stride = (np >> 10) + 1; }
+            if (!T && !vf::replaying() && !s.quick) stride = 8;
             for (uint64_t mask = 0; mask < np; mask += stride) {
                 std::string key;
                 if (!vf::take([&] { return std::string(vf::KS() << "ba|" << s.b << "|" << s.br << "x" << s.bc << "|" << mask); })) continue;
